@@ -194,15 +194,39 @@ Proof. apply (latin1_equiv_n (length s) s (le_n _)). Qed.
 Lemma scalars_length s cs : utf8_scalars_lt_800 s = Some cs -> (length cs <= length s)%nat.
 Proof. apply (latin1_equiv_n (length s) s (le_n _)). Qed.
 
+Lemma scalars_count_n : forall n s, (length s <= n)%nat ->
+  forall cs, utf8_scalars_lt_800 s = Some cs ->
+  length (filter (fun c => negb (cont c)) s) = length cs.
+Proof.
+  induction n as [|n IH]; intros s Hl cs.
+  - destruct s; [|cbn in Hl; lia]. intro H; inversion H; reflexivity.
+  - destruct s as [|c r]; [intro H; inversion H; reflexivity|].
+    cbn [length] in Hl. cbn [utf8_scalars_lt_800 filter].
+    destruct (N.ltb_spec c 128) as [Hc|Hc].
+    + assert (Ec : cont c = false) by (unfold cont, in_range; destruct (N.leb_spec 128 c); [lia|reflexivity]).
+      rewrite Ec. cbn [negb]. destruct (utf8_scalars_lt_800 r) as [cs'|] eqn:E; [|discriminate].
+      intro H; inversion H; subst. cbn [length]. f_equal. apply (IH r); [lia|exact E].
+    + destruct ((194 <=? c) && (c <=? 223)) eqn:R; [|discriminate].
+      apply andb_true_iff in R as [R1 R2]. apply N.leb_le in R1. apply N.leb_le in R2.
+      destruct r as [|c2 r']; [discriminate|].
+      destruct ((128 <=? c2) && (c2 <=? 191)) eqn:R'; [|discriminate].
+      assert (Ec : cont c = false) by (unfold cont, in_range; destruct (N.leb_spec 128 c), (N.leb_spec c 191); try reflexivity; lia).
+      assert (Ec2 : cont c2 = true) by (exact R').
+      rewrite Ec. cbn [negb filter]. rewrite Ec2. cbn [negb].
+      destruct (utf8_scalars_lt_800 r') as [cs'|] eqn:E; [|discriminate].
+      intro H; inversion H; subst. cbn [length] in *. f_equal. apply (IH r'); [lia|exact E].
+Qed.
+
+Lemma scalars_count s cs : utf8_scalars_lt_800 s = Some cs -> utf8_chars s = N.of_nat (length cs).
+Proof. intro H. unfold utf8_chars. f_equal. apply (scalars_count_n (length s) s (le_n _) cs H). Qed.
+
 (* ---------- leaf specification ---------- *)
 
 Section Leaves.
   Variable b64 : bytes -> option bytes.
 
-  (* outside the known classes: Ok v => v is the prescribed encoding of j; Err => j is outside the
-     domain; never a panic *)
+  (* Ok v => v is the prescribed encoding of j; Err => j is outside the domain; never a panic *)
   Definition leaf_spec0 (ctx : list (bytes * json)) (c : vclass) (j : json) (r : res cbor) : Prop :=
-    known0 c j = None ->
     match r with
     | Ok v => den0 b64 ctx c j v = true
     | Err _ => dom0 b64 ctx c j = false
@@ -210,11 +234,11 @@ Section Leaves.
     end.
 
   Lemma text_spec ctx j : leaf_spec0 ctx VText j (rmap CText (string_leaf j)).
-  Proof. intros _. destruct j; cbn; try reflexivity. apply bytes_eqb_refl. Qed.
+  Proof. unfold leaf_spec0. destruct j; cbn; try reflexivity. apply bytes_eqb_refl. Qed.
 
   Lemma u32_spec ctx j : leaf_spec0 ctx VUInt32 j (rmap CUInt (u32_leaf j)).
   Proof.
-    intros _. destruct j; cbn [u32_leaf rmap]; try reflexivity.
+    unfold leaf_spec0. destruct j; cbn [u32_leaf rmap]; try reflexivity.
     unfold two32. destruct (N.ltb_spec n 4294967296) as [H|H]; cbn [rmap den0 dom0].
     - destruct (N.ltb_spec n 4294967296); [|lia]. rewrite N.eqb_refl. reflexivity.
     - destruct (N.ltb_spec n 4294967296); [lia|]. reflexivity.
@@ -222,13 +246,13 @@ Section Leaves.
 
   Lemma bytes_spec ctx j : leaf_spec0 ctx VBytes j (bytestr_leaf b64 j).
   Proof.
-    intros _. destruct j; cbn [bytestr_leaf string_leaf rbind]; try reflexivity.
+    unfold leaf_spec0. destruct j; cbn [bytestr_leaf string_leaf rbind]; try reflexivity.
     destruct (b64 s) as [x|] eqn:E; cbn [den0 dom0]; rewrite E; [apply bytes_eqb_refl|reflexivity].
   Qed.
 
   Lemma county_spec ctx j : leaf_spec0 ctx VCounty j (county_leaf j).
   Proof.
-    intros _. destruct j; cbn [county_leaf string_leaf rbind]; try reflexivity.
+    unfold leaf_spec0. destruct j; cbn [county_leaf string_leaf rbind]; try reflexivity.
     destruct s as [|a [|c [|d [|e r]]]]; try reflexivity.
     cbn [den0 dom0 spec_county].
     destruct (is_digit a && is_digit c && is_digit d); cbn [rmap andb]; [apply (bytes_eqb_refl [a; c; d])|reflexivity].
@@ -236,7 +260,7 @@ Section Leaves.
 
   Lemma present_spec ctx j : leaf_spec0 ctx VPresent j (present_leaf j).
   Proof.
-    intros _. destruct j; try reflexivity.
+    unfold leaf_spec0. destruct j; try reflexivity.
     unfold present_leaf, u32_leaf, rbind, two32.
     destruct (N.ltb_spec n 4294967296) as [H|H].
     - destruct (N.eqb_spec n 1) as [E|E].
@@ -248,22 +272,17 @@ Section Leaves.
 
   Lemma latin1_spec ctx j : leaf_spec0 ctx VLatin1 j (latin1_leaf j).
   Proof.
-    destruct j; try (intros _; reflexivity).
-    unfold leaf_spec0. cbn [known0 latin1_leaf string_leaf rbind].
+    unfold leaf_spec0. destruct j; try reflexivity.
+    cbn [latin1_leaf string_leaf rbind den0 dom0].
     change latin1_max_len with 150.
     unfold spec_latin1. rewrite latin1_equiv.
     destruct (utf8_scalars_lt_800 s) as [cs|] eqn:E.
-    - pose proof (scalars_length _ _ E) as L.
-      destruct (N.ltb_spec 150 (blen s)) as [Hb|Hb].
-      + rewrite andb_true_r. cbn [dom0 den0]. unfold spec_latin1. rewrite E.
-        destruct (forallb latin1_scalar cs); cbn [andb].
-        * destruct (N.leb_spec (N.of_nat (length cs)) 150); [discriminate|]. intros _. reflexivity.
-        * intros _. reflexivity.
-      + rewrite andb_false_r. intros _.
-        destruct (forallb latin1_scalar cs) eqn:F; cbn [den0 dom0]; unfold spec_latin1; rewrite E, F; cbn [andb].
-        * destruct (N.leb_spec (N.of_nat (length cs)) 150); [apply bytes_eqb_refl|]. unfold blen in Hb. lia.
-        * reflexivity.
-    - cbn [andb]. intros _. destruct (150 <? blen s); cbn [den0 dom0]; unfold spec_latin1; rewrite E; reflexivity.
+    - rewrite (scalars_count _ _ E).
+      destruct (N.ltb_spec 150 (N.of_nat (length cs))) as [Hb|Hb].
+      + destruct (N.leb_spec (N.of_nat (length cs)) 150); [lia|]. apply andb_false_r.
+      + destruct (N.leb_spec (N.of_nat (length cs)) 150); [|lia].
+        destruct (forallb latin1_scalar cs); cbn [andb]; [apply bytes_eqb_refl|reflexivity].
+    - destruct (150 <? utf8_chars s); reflexivity.
   Qed.
 
   (* ---------- code tables ---------- *)
@@ -271,7 +290,7 @@ Section Leaves.
   Lemma codetext_spec ctx t codes fold j : str_table_ok t codes fold = true -> st_passthrough t = false ->
     leaf_spec0 ctx (VCodeText codes fold) j (str_enum_leaf t j).
   Proof.
-    intros Hok Hp _. destruct j; try reflexivity.
+    intros Hok Hp. unfold leaf_spec0. destruct j; try reflexivity.
     unfold str_enum_leaf, string_leaf, rbind, rmap.
     pose proof (str_table_code_spec t codes fold Hok Hp s) as H.
     destruct (str_table_code t s) as [c|e|p]; cbn [den0 dom0].
@@ -284,7 +303,7 @@ Section Leaves.
     forallb (fun c => c <? 4294967296) codes = true ->
     leaf_spec0 ctx (VCodeUInt codes) j (int_enum_leaf t j).
   Proof.
-    intros Hok Hsmall _. destruct j; try reflexivity.
+    intros Hok Hsmall. unfold leaf_spec0. destruct j; try reflexivity.
     unfold int_enum_leaf, u32_leaf, rbind, rmap, two32.
     destruct (N.ltb_spec n 4294967296) as [Hn|Hn].
     - pose proof (int_table_code_spec t codes Hok n) as H.
@@ -300,7 +319,7 @@ Section Leaves.
   Lemma freecode_spec ctx t j : str_table_rt t = true -> st_norm t = NormNone -> st_passthrough t = true ->
     leaf_spec0 ctx VFreeCode j (str_enum_leaf t j).
   Proof.
-    intros H1 H2 H3 _. destruct j; try reflexivity.
+    intros H1 H2 H3. unfold leaf_spec0. destruct j; try reflexivity.
     unfold str_enum_leaf, string_leaf, rbind, rmap.
     rewrite (str_table_code_passthrough t H1 H2 H3). cbn [den0]. apply bytes_eqb_refl.
   Qed.
